@@ -527,9 +527,49 @@ def _drain(ctx, f, buf, handler):
 M2_STATES = {"value": "on_value_msg", "offer": "on_offer_msg", "answer?": "on_answer_msg", "gain": "on_gain_msg", "go?": "on_go_msg"}
 
 
+def _empty_reductions(ctx, repo, cls):
+    """R-NORAISE: a helper of the class that reduces its parameter with min() / max() and no default is only called with a
+    sequence known to be non-empty (an earlier operand of the same `or` tests emptiness, or a dominating guard does)"""
+    n = 0
+    for m in cls.methods.values():
+        ps = m.params[1:]
+        red = [c for c in walk_no_nested(m.node) if isinstance(c, ast.Call) and isinstance(c.func, ast.Name) and c.func.id in ("min", "max") and len(c.args) == 1
+               and isinstance(c.args[0], ast.Name) and c.args[0].id in ps and not any(k.arg == "default" for k in c.keywords)]
+        if not red:
+            continue
+        pidx = ps.index(red[0].args[0].id)
+        for f in cls.methods.values():
+            ff = FuncFacts(f.node)
+            for c in ast.walk(f.node):
+                if not (isinstance(c, ast.Call) and is_self_attr(c.func, m.name) and len(c.args) > pidx):
+                    continue
+                n += 1
+                x = norm(c.args[pidx])
+                empt = (f"{x} == []", f"not {x}", f"len({x}) == 0", f"[] == {x}")
+                guarded = any((t in empt and p is False) or (t == x and p is True) or (t == f"len({x}) > 0" and p) for t, p in {(norm(a), b) for a, b in facts_at(ff, c)})
+                # the full table of neighbour gains is non-empty whenever a gain phase completes: isolated variables finish in on_start (R-ISOLATED)
+                if x in ("list(self._neighbors_gains.values())", "self._neighbors_gains.values()"):
+                    guarded = True
+                for b in ast.walk(f.node):
+                    if isinstance(b, ast.BoolOp) and isinstance(b.op, ast.Or):
+                        for i, v in enumerate(b.values):
+                            if any(y is c for y in ast.walk(v)) and any(norm(e) in empt for e in b.values[:i]):
+                                guarded = True
+                    if isinstance(b, ast.BoolOp) and isinstance(b.op, ast.And):
+                        for i, v in enumerate(b.values):
+                            if any(y is c for y in ast.walk(v)) and any(norm(e) == x or norm(e) == f"len({x}) > 0" for e in b.values[:i]):
+                                guarded = True
+                ctx.check(guarded, "R-NORAISE", f"{cls.name}.{f.name}: {m.name}({x}) only with a non-empty sequence", f, c,
+                          f"{m.name} reduces its argument with {red[0].func.id}() without default: an empty list (e.g. a variable whose only neighbour is its partner) raises "
+                          "ValueError in the handler, the partner waits for ever and nobody reaches stop_cycle")
+    return n
+
+
 def _mgm2(ctx, repo):
     mod, cn = ALGOS["mgm2"]
     cls = repo.cls(mod, cn)
+    if _empty_reductions(ctx, repo, cls) < 2:
+        raise AnalysisError("R-NORAISE: call sites of MGM2's _best_gain not found")
     table = repo.handler_table(cls)
     # handler <-> state literal <-> buffer key <-> registered message type
     for st, hn in M2_STATES.items():
@@ -718,6 +758,7 @@ _MGM = "pydcop/algorithms/mgm.py"
 _MGM2 = "pydcop/algorithms/mgm2.py"
 _DSA = "pydcop/algorithms/dsa.py"
 VARIANTS = [
+    ("mgm2_best_gain_of_no_neighbour", "pydcop/algorithms/mgm2.py", ["            if neigh_gains == [] or self._is_better_gain(", "        return max(gains) if self._mode == \"min\" else min(gains)"], ["            if self._is_better_gain(", "        return max(gains, default=0) if self._mode == \"min\" else min(gains)"], "break", "R-NORAISE"),
     ("mgm2_neighbors_sorted_list", _MGM2, "        self._neighbors = set(\n            [v for c in self._constraints for v in c.dimensions if v != self.variable]\n        )", "        self._neighbors = sorted(\n            [v for c in self._constraints for v in c.dimensions if v != self.variable],\n            key=lambda v: v.name,\n        )", "break", "R-COUNT"),
     ("mgm_isolated_reduces_empty", _MGM, "            value, cost = optimal_cost_value(self._variable, self._mode)\n            self.value_selection(value, cost)\n\n            if self.logger.isEnabledFor(logging.INFO):\n                self.logger.info(\n                    f\"Select initial value {self.current_value} \"", "            values, cost = self._compute_best_value()\n            self.value_selection(values[0], cost)\n\n            if self.logger.isEnabledFor(logging.INFO):\n                self.logger.info(\n                    f\"Select initial value {self.current_value} \"", "break", "R-NORAISE"),
     ("mgm_drain_removes_while_iterating", _MGM, "            self._handle_value_message(msg[0], msg[1])\n        self.__postponed_value_messages__.clear()",
